@@ -189,3 +189,83 @@ func init() {
 	extendVia("C14", "C14_act", q, t, 4)
 	extendVia("C15", "C15_actgrad", q, t, 3)
 }
+
+// rank 3 in the quick tier where an INNER dimension exists only from rank 3 on (a reduction or a
+// Softmax along a dimension with more than one position on both sides of it)
+func init() {
+	only := func(its []Item, act string) []Item {
+		var out []Item
+		for _, it := range its {
+			if it.S["act"] == act {
+				out = append(out, it)
+			}
+		}
+		return out
+	}
+	extend("C05", "C05_along", func() []Item { return sItems("op", redOps, rankItems(3, 3, 2, nil)) }, nil)
+	extend("C14", "C14_act", func() []Item { return only(actItems(3, 3, 2, []int64{0}), "Softmax") }, nil)
+	extend("C15", "C15_actgrad", func() []Item { return only(actItems(3, 3, 2, []int64{0}), "Softmax") }, nil)
+}
+
+// component objects that were used before (Forward / Compute and a back-propagation): "warm" = 1
+func init() {
+	warm := func(its []Item) []Item { return withP(its, map[string]int64{"warm": 1}) }
+	extend("C15", "C15_actgrad", func() []Item { return warm(actItems(1, 2, 2, []int64{0})) }, func() []Item { return warm(actItems(1, 2, 2, []int64{0, 1})) })
+	extend("C13", "C13_lossgrad", func() []Item { return warm(lossItems(2, 2, []int64{0})) }, func() []Item { return warm(lossItems(2, 2, []int64{0, 1})) })
+}
+
+// C16: parameters replaced the way a training loop does it (computed from the spent parameter, reset)
+func init() {
+	repl := func(b, f, o int64) func() []Item {
+		return func() []Item {
+			return items(map[string]int64{"mode": 0, "maxb": b, "maxf": f, "maxo": o, "repl": 1}, map[string]int64{"mode": 1, "maxb": b, "maxf": f, "maxo": o, "repl": 1})
+		}
+	}
+	extend("C16", "C16_fc", repl(2, 2, 2), repl(2, 2, 3))
+}
+
+// Size ladder: vectors / batches of hundreds to thousands of elements (around powers of two and a few
+// odd sizes), elements fixed except a handful of solver-chosen ones.  Decides the same assertions on
+// code paths that exist only above a size threshold (chunked or parallel folds).
+func ladder(quick bool) []int64 {
+	if quick {
+		return []int64{257, 1025, 2053, 4096, 4097}
+	}
+	return []int64{255, 256, 257, 1000, 1023, 1024, 1025, 2047, 2048, 2049, 2053, 4095, 4096, 4097, 5000, 8191, 8192, 8200}
+}
+
+func init() {
+	nItems := func(quick bool) []Item {
+		var out []Item
+		for _, n := range ladder(quick) {
+			out = append(out, Item{P: map[string]int64{"n": n}})
+		}
+		return out
+	}
+	c05 := findCheck("C05")
+	c05.Harnesses = append(c05.Harnesses, Harness{Name: "C05_big", Pkg: "zzh", Func: "H_C05_big", Reach: []string{"done"},
+		What: "size ladder: Sum/Avg/Mean/Var/Std/Max/Min of vectors of 255..8200 elements (fixed small integers except 9-25 solver-chosen elements at head, tail and every 509th position; extrema: tail only), the same statistic (and SumAlong(0)) of the same data as an [n/8, 8] matrix when 8 divides n",
+		Items: tiered(func() []Item { return sItems("op", []string{"Sum", "Avg", "Max", "Var"}, nItems(true)) }, func() []Item { return sItems("op", redOps, nItems(false)) })})
+	c19 := findCheck("C19")
+	c19.Harnesses = append(c19.Harnesses, Harness{Name: "C19_big", Pkg: "component/metrics", Func: "H_C19_big", Reach: []string{"done"},
+		What:  "size ladder: one Accumulate of a batch of 255..8200 positions from an arbitrary pre-state, match pattern fixed except 11-25 solver-chosen positions (head, tail, every 509th)",
+		Items: tiered(func() []Item { return nItems(true) }, func() []Item { return nItems(false) })})
+}
+
+// Bit-precise (IEEE-754 binary64) sign / finiteness harnesses: what the real-number model cannot see is
+// an algebraically equivalent formula that cancels catastrophically.  Exact values are not compared
+// (that would prescribe one operation order); sign and finiteness are facts every correct formula keeps.
+func init() {
+	c12 := findCheck("C12")
+	c12.Harnesses = append(c12.Harnesses, Harness{Name: "C12_fp", Pkg: "zzh", Func: "H_C12_fp", Reach: []string{"done"}, FP: true,
+		What: "BIT-PRECISE (binary64 in the SMT FloatingPoint theory): the MSE of batches of 1..2 (thorough 1..3) samples with all predictions / targets finite and of magnitude <= 1e6 is a number >= 0 and finite; math.Pow(x,2) is modelled as the correctly rounded x*x",
+		Items: tiered(func() []Item {
+			return items(map[string]int64{"b": 1, "tracked": 0}, map[string]int64{"b": 1, "tracked": 1}, map[string]int64{"b": 2, "tracked": 0})
+		}, func() []Item {
+			return items(map[string]int64{"b": 1, "tracked": 0}, map[string]int64{"b": 1, "tracked": 1}, map[string]int64{"b": 2, "tracked": 0}, map[string]int64{"b": 2, "tracked": 1}, map[string]int64{"b": 3, "tracked": 0})
+		})})
+	c05 := findCheck("C05")
+	c05.Harnesses = append(c05.Harnesses, Harness{Name: "C05_fp", Pkg: "zzh", Func: "H_C05_fp", Reach: []string{"done"}, FP: true,
+		What:  "BIT-PRECISE (binary64): Var of a vector of 1..2 (thorough 1..3) finite elements of magnitude <= 1e6 is a number >= 0 and finite (so Std is never NaN)",
+		Items: tiered(func() []Item { return items(map[string]int64{"n": 1}, map[string]int64{"n": 2}) }, func() []Item { return items(map[string]int64{"n": 1}, map[string]int64{"n": 2}, map[string]int64{"n": 3}) })})
+}
